@@ -110,10 +110,15 @@ class P(Property):
                     fam += [('-', '-', 2, 'ue,fu'), ('-', '-', 2, 'qp,fu'), ('-', '-', 2, 'tfu,fe'),
                             ('-', 'x777', 2, 'wd,wt'), ('-', 'x777', 2, 'wf,wr' if S else 'wf,l'),
                             ('-', 'x777', 2, 'xfu,xw'), ('-', 't', 2, 'xw,xl')]
+                    fam += [('-', 'x777', 2, 'fu,wf'), ('-', 'x777', 2, 'fu,wt'), ('-', 'x777', 2, 'fu,wd'),
+                            ('-', 'x777', 2, 'fu,wr' if S else 'fu,rq')]
                     if not S:
                         fam += [('-', '-', 2, 'dr,fu'), ('-', 'x777', 2, 'rq,l'), ('-', 't', 2, 'rq,rq')]
                 if F:
-                    fam += [('cms', '-', 1, 'fu'), ('cid', '-', 1, 'fu'), ('-', 'x777', 1, 'xw'), ('-', '-', 1, 'qp')]
+                    fam += [('cms', '-', 1, 'fu'), ('cid', '-', 1, 'fu'), ('-', 'x777', 1, 'xw'), ('-', '-', 1, 'qp'),
+                            ('2cs', '-', 1, 'fe'), ('cfe', '-', 1, 'fu'), ('-', 'x256', 1, 'l'), ('-', 'x256', 1, 'fu')]
+                    if not S:
+                        fam += [('cpp', '-', 1, 'fe'), ('cbi', '-', 1, 'fe')]
                     if not S:
                         fam += [('-', '-', 1, 'dr')]
                     if T:
@@ -145,6 +150,8 @@ class P(Property):
                 nd = 4 * np_ - (np_ - 1)
             elif derr == 'cid' and loss == '-':
                 nd = 13
+            elif derr == 'cbi' and loss == '-':
+                nd = 10
             elif own:
                 nd = 7
             else:
@@ -169,8 +176,14 @@ class P(Property):
     def spec_ok(self, case, out, spec):
         if spec is None:
             return True
-        o, s = parse_result(out), parse_result(spec)
-        if o is None or s is None:
+        o = parse_result(out)
+        if o is None:
+            return False
+        # the spec column lists the admissible outcomes (one unless the driver can detect an error of its own)
+        return any(self.matches(o, parse_result(cand.strip())) for cand in spec.split(';;'))
+
+    def matches(self, o, s):
+        if s is None:
             return False
         x = s['d2']
         # every handle reports the single outcome, on every later call; close exactly as the outcome demands
